@@ -573,6 +573,11 @@ func (c scase) runCode() (o outcome) {
 				o.mutated = "the map argument was modified"
 			}
 			for i, g := range gs {
+				if arg[fmt.Sprintf("m%d", i)] != g.mode {
+					o.mutated = fmt.Sprintf("the map argument was modified (entry m%d replaced)", i)
+				}
+			}
+			for i, g := range gs {
 				if m := g.changed(); m != "" {
 					o.mutated = fmt.Sprintf("mode %d: %s", i, m)
 					break
@@ -1546,7 +1551,7 @@ func runSeg(f lib.Flags, res *lib.Result, drv *lib.Driver) {
 	k2 := res.Tie("segments-exhaustive-small", "K2",
 		"all lists of <=3 segments over mag {-1,0,1,2} x len {0,1,2,absent}: Duration, Max, SumMagnitude on each; ActiveAt, MagnitudeAt, MaxAfter, Shift for every d in -1..total+1 (Shift also -d); "+
 			"Cut of every segment at d in -1..4, unshaped and with the shape oneof unset / Fixed 0 / 2 / -3; Sum of all ordered pairs of lists of <=2 segments (quick) / plus all triples of lists of <=1 segment and pairs (<=3, <=1) (thorough); "+
-			"modepb read/Cut/Shift on lists of <=2 segments x start in {absent,0,2} x t in -1..total+3 (d in -3..3), modepb.Sum of all pairs of lists of <=1 segment and all triples over {e, 1/1, 2/i}, each x starts {absent,0,2}, modepb.MinAt of all pairs of lists of <=1 segment x t in -1..4 (the returned mode is compared only when the minimum is unique: it depends on map iteration order otherwise); the mode families again (lists of <=1 segment for read/Cut/Shift) with model time 0 placed on the zero time.Time and on the Unix epoch (start and query times at, before and after those instants); distinct = distinct request line + epoch; non-trivial = some list non-empty")
+			"modepb read/Cut/Shift on lists of <=2 segments x start in {absent,0,2} x t in -1..total+3 (d in -3..3), modepb.Sum of all pairs of lists of <=1 segment and all triples over {e, 1/1, 2/i}, each x starts {absent,0,2}, modepb.MinAt of all pairs of lists of <=1 segment x t in -1..4 (the returned mode is compared only when the minimum is unique: it depends on map iteration order otherwise); the mode families again (lists of <=1 segment for read/Cut/Shift; thorough: <=2, plus denormalised start-time protos) with model time 0 placed on the zero time.Time and on the Unix epoch (start and query times at, before and after those instants); distinct = distinct request line + epoch; non-trivial = some list non-empty")
 	k2.Exhaustive = true
 	var cases []scase
 	l3 := smallLists(3)
@@ -1653,8 +1658,14 @@ func runSeg(f lib.Flags, res *lib.Result, drv *lib.Driver) {
 		}
 	}
 	modeCases("", l2)
-	modeCases("zero", l1)
-	modeCases("unix", l1)
+	if f.Thorough() {
+		modeCases("zero", l2)
+		modeCases("unix", l2)
+		modeCases("denorm", l1)
+	} else {
+		modeCases("zero", l1)
+		modeCases("unix", l1)
+	}
 	compareSeg(k2, mon, drv, cases)
 
 	// K1: the property's random domain
